@@ -213,16 +213,19 @@ def error_blocks(fn):
     """blocks that construct the error return: `_0 = Result::Err(..)`, call to from_residual, or
     anyhow's bail (`_0 = Err(..)` via Result::Err aggregate)."""
     out = set()
+    # the return place of the function, and of every helper body inlined into it (facts.DB._inline_new_helpers): an `Err`
+    # built for a helper's return is an error exit of the helper (its callers propagate it with `?`)
+    rets = {0} | getattr(fn, "inl_rets", set())
     for b in fn.blocks:
         if b.cleanup:
             continue
         for s in b.stmts:
-            if s.lhs.local == 0 and not s.lhs.proj and s.rv.k == "agg" and s.rv.j.get("variant") == "Err" \
+            if s.lhs.local in rets and not s.lhs.proj and s.rv.k == "agg" and s.rv.j.get("variant") == "Err" \
                     and s.rv.j.get("adt", "").endswith("result::Result"):
                 out.add(b.idx)
         t = b.term
         if t.k == "call" and t.declared and t.declared.endswith("FromResidual::from_residual") \
-                and t.dest.local == 0 and not t.dest.proj:
+                and t.dest.local in rets and not t.dest.proj:
             out.add(b.idx)
     return out
 
